@@ -15,7 +15,7 @@ from . import amptools as AT
 from .common import EPS, facts, far, far_c, prove_close_poly, re_im, simp, tensor_of, term_of
 
 PID = "C04"
-LEVEL = "other"
+LEVEL = "model_checking"
 CLAIM = (
     "Compositional bounded verification on real models built by ConfigLoader (spin-0 parent, three spin-0 final particles, one resonance "
     "of spin J = 0..4 with natural parity). Single chain, kinematics symbolic: the invariant mass m of the resonance system ranges over "
